@@ -446,6 +446,20 @@ func checkCrash(rec *Recorded, img crashImage, prop string) []Violation {
 				fail("write-after-recovery", "an update after the recovery fails: "+err.Error())
 				return
 			}
+			if cfg.Async == 0 {
+				// synchronous mode: that call committed; a handle opened now must load
+				dbx := sod.Open(dbRoot)
+				if _, err := dbx.Schema(&Rec{}); err != nil {
+					fail("unreadable-after-later-writes", "the collection was recovered and one object was updated; it cannot be loaded any more: "+err.Error())
+					return
+				}
+				o := &Rec{}
+				o.Initialize(u)
+				if got, err := dbx.Get(o); err != nil || jsonOf(got) != jsonOf(func() *Rec { c := cloneRec(small); canon(c); return c }()) {
+					fail("unreadable-after-later-writes", fmt.Sprintf("the object updated after the recovery reads back as %s (%v)", jsonOf(got), err))
+					return
+				}
+			}
 			break
 		}
 		if err := db.DeleteAll(&Rec{}); err != nil {
